@@ -437,9 +437,16 @@ class IMAPSearch:
                 if elt == msg_number:
                     return True
             elif isinstance(elt, tuple):
-                if isinstance(elt[1], str) and elt[1] == "*":
-                    elt = (elt[0], self.ctx.seq_max)
-                if msg_number >= elt[0] and msg_number <= elt[1]:
+                # Either end of a range may be `*` and a range may be given
+                # in either order: `4:2` is the same as `2:4`.
+                #
+                start, end = (
+                    self.ctx.seq_max if isinstance(x, str) and x == "*" else x
+                    for x in elt
+                )
+                if start > end:
+                    start, end = end, start
+                if msg_number >= start and msg_number <= end:
                     return True
         return False
 
@@ -563,8 +570,15 @@ class IMAPSearch:
                 if elt == uid:
                     return True
             elif isinstance(elt, tuple):
-                if isinstance(elt[1], str) and elt[1] == "*":
-                    elt = (elt[0], self.ctx.uid_max)
-                if uid >= elt[0] and uid <= elt[1]:
+                # Either end of a range may be `*` and a range may be given
+                # in either order: `4:2` is the same as `2:4`.
+                #
+                start, end = (
+                    self.ctx.uid_max if isinstance(x, str) and x == "*" else x
+                    for x in elt
+                )
+                if start > end:
+                    start, end = end, start
+                if uid >= start and uid <= end:
                     return True
         return False
